@@ -483,6 +483,21 @@ fn mon_c06(snap: &Snap, timeout_s: u64, armed: &mut BTreeMap<String, u64>) -> Ve
         }
     }
     let Some(graceful) = first_stop else { return out };
+    // forced: the server task goes straight from telling the workers to joining the accept loop; it never waits
+    // for a worker (which may be busy with a connection and not get to its stop message for a long time)
+    if !graceful {
+        let stop_at = snap.log.iter().position(|(_, _, r)| matches!(r, Rec::StopProcessed));
+        if let Some(p) = stop_at {
+            let joined = snap.log[p..].iter().any(|(_, _, r)| matches!(r, Rec::AcceptJoin { .. }));
+            let step_of_stop = snap.log[p].0;
+            let later_step = snap.log.iter().any(|(s, _, _)| *s > step_of_stop) || snap.steps > step_of_stop;
+            if !joined && later_step && snap.server_done.is_none() {
+                out.push(("C06:forced-stop-waits-for-workers".to_string(), "forced stop: after telling the workers to stop the server task did not go on to join the accept loop in the same turn; it is waiting for something a busy worker may not deliver".to_string()));
+                return out;
+            }
+            *armed.entry("forced_stops_checked_for_not_waiting".into()).or_insert(0) += 1;
+        }
+    }
     // graceful must wait: at the moment the server resolved, connections that were in progress at a
     // worker must have finished, unless shutdown_timeout had elapsed since the worker was told to stop
     if graceful {
@@ -679,6 +694,34 @@ fn mon_c08(snap: &Snap, workers: usize, limit: usize, armed: &mut BTreeMap<Strin
             _ => {}
         }
     }
+    // the dead worker receives nothing further: once it has died, a send to it must fail
+    {
+        let mut dying: Vec<usize> = vec![]; // worker idx
+        let mut i = 0;
+        while i < snap.log.len() {
+            match &snap.log[i].2 {
+                Rec::WorkerDying { slot } => {
+                    if let Some(w) = snap.workers.get(*slot) {
+                        dying.push(w.idx);
+                    }
+                }
+                Rec::Dispatch { conn, worker, .. } if dying.contains(worker) => {
+                    // is it still the dead one (no replacement handle for that idx has been stored since)?
+                    let replaced = snap.log[..i].iter().rev().take_while(|(_, _, r)| !matches!(r, Rec::WorkerDying { .. })).any(|(_, _, r)| matches!(r, Rec::AcceptQueueBefore(q) if q.iter().any(|x| x == &format!("Worker({worker})"))));
+                    let failed = matches!(snap.log.get(i + 1).map(|x| &x.2), Some(Rec::DispatchFailed { .. }));
+                    if !failed && !replaced {
+                        out.push(("C08:dead-worker-accepted-a-connection".to_string(), format!("step {}: connection {:?} was sent to worker {worker} after that worker had died, and the send succeeded (its connection channel was still open), so the connection is lost instead of being re-routed", snap.log[i].0, conn)));
+                        return out;
+                    }
+                }
+                _ => {}
+            }
+            i += 1;
+        }
+        if !dying.is_empty() {
+            *armed.entry("histories_with_a_dead_worker".into()).or_insert(0) += 1;
+        }
+    }
     // walk the accept turns: handles known at turn boundaries
     let mut handles: Vec<usize> = (0..workers).collect();
     let mut turn_queue: Vec<String> = vec![];
@@ -824,6 +867,8 @@ fn specs_for(prop: &'static str, tier: Tier) -> Vec<SpecImpl> {
             v.push(mk(cfg(1, &[Tcp], 1), Bounds { connects: 3, nested: 1, ..Default::default() }));
             // two listeners: a connection may wait on either of them while the workers are saturated
             v.push(mk(cfg(1, &[Uds, Uds], 1), Bounds { connects: 3, connect_listeners: vec![0, 1], nested: 0, ..Default::default() }));
+            // a worker dies and is replaced while another one is saturated: its release must still be noticed
+            v.push(mk(cfg(2, &[Uds], 1), Bounds { connects: 3, kills: 1, ..Default::default() }));
             // completions while paused: the notification must not be lost
             v.push(mk(cfg(1, &[Uds], 1), Bounds { connects: 3, cmds: vec![Ev::Pause, Ev::Resume], max_cmds: 2, ..Default::default() }));
             if !q {
@@ -836,6 +881,10 @@ fn specs_for(prop: &'static str, tier: Tier) -> Vec<SpecImpl> {
             for (w, l, n, nested) in if q { vec![(1, 1, 3, 1), (1, 2, 5, 1), (2, 1, 4, 1), (1, 3, 5, 0)] } else { vec![(1, 1, 4, 2), (1, 2, 5, 2), (1, 3, 6, 1), (1, 4, 6, 1), (2, 1, 5, 2), (2, 2, 6, 1), (3, 1, 5, 1), (3, 2, 7, 0)] } {
                 v.push(mk(cfg(w, &[Uds], l), Bounds { connects: n, nested, ..Default::default() }));
             }
+            // three workers: the rotation steps over a full worker
+            v.push(mk(cfg(3, &[Uds], 1), Bounds { connects: 4, ..Default::default() }));
+            // readiness changes of the service must not make a saturated worker look available
+            v.push(mk(cfg(1, &[Uds], 1), Bounds { connects: 3, modes: vec![Mode::Ready, Mode::Pending], max_mode_changes: 2, ..Default::default() }));
             // pause / resume must not make a saturated worker look available
             v.push(mk(cfg(1, &[Uds], 1), Bounds { connects: 3, cmds: vec![Ev::Pause, Ev::Resume], max_cmds: 2, ..Default::default() }));
             v.push(mk(cfg(2, &[Uds], 1), Bounds { connects: 4, cmds: vec![Ev::Pause, Ev::Resume], max_cmds: 2, ..Default::default() }));
@@ -852,6 +901,8 @@ fn specs_for(prop: &'static str, tier: Tier) -> Vec<SpecImpl> {
                 v.push(mk(cfg(2, &[Uds, Uds], 2), Bounds { connects: 3, connect_listeners: vec![0, 1], nested: 1, ..Default::default() }));
                 // a worker dies: the connection that discovers it must still reach a live worker
                 v.push(mk(cfg(2, &[Uds], 1), Bounds { connects: 3, kills: 1, ..Default::default() }));
+                // services that are not ready / fail their readiness check: queued connections wait, none is lost
+                v.push(mk(cfg(1, &[Uds], 3), Bounds { connects: 2, modes: vec![Mode::Ready, Mode::Pending, Mode::ErrOnce], max_mode_changes: 2, ..Default::default() }));
             } else {
                 v.push(mk(cfg(2, &[Uds], 1), Bounds { connects: 4, kills: 1, ..Default::default() }));
                 v.push(mk(cfg(3, &[Uds], 1), Bounds { connects: 4, kills: 1, ..Default::default() }));
@@ -937,7 +988,7 @@ fn specs_for(prop: &'static str, tier: Tier) -> Vec<SpecImpl> {
         "C08" => {
             if q {
                 v.push(mk(cfg(1, &[Uds], 1), Bounds { connects: 3, kills: 1, ..Default::default() }));
-                v.push(mk(cfg(2, &[Uds], 1), Bounds { connects: 3, kills: 1, ..Default::default() }));
+                v.push(mk(cfg(2, &[Uds], 1), Bounds { connects: 3, kills: 1, nested: 1, ..Default::default() }));
                 v.push(mk(cfg(2, &[Uds], 2), Bounds { connects: 3, kills: 1, ..Default::default() }));
                 // two faults in sequence (handle order is permuted by the first repair)
                 v.push(mk(cfg(2, &[Uds], 1), Bounds { connects: 2, kills: 2, completes: false, ..Default::default() }));
